@@ -41,7 +41,13 @@ RULE = (
     'BytesIO and real files, real paths that already hold a file, second create() of one builder, and the '
     'argument-form classes of C12: masked pixels (all N pixels stored, data_range over all N), variances on '
     'coordinates / metadata, numpy / enum / subclass stand-ins for int / str / bool, calling conventions, stand-in '
-    'targets and model subclasses, second use after a failure, reader results fed back); '
+    'targets and model subclasses, second use after a failure, reader results fed back; text not in Unicode '
+    'normal form in every string field and in file names; streams that are not empty when create() runs (the zero '
+    'histogram lies over non-zero bytes); the same model objects modified in place between two builds); '
+    'reader: between Sqw.open and read_data_block the NAME of a real file changes its meaning (working directory '
+    'changed after opening by a relative name, directory entry replaced / removed / renamed, symbolic link '
+    're-pointed, hard link removed): every number must come from the file that was opened; results of the reader '
+    'are written into in place, the file and a second read must not be affected; '
     'supplied values: float64 rows over 1e-30..1e29 of either sign with '
     'forced {0, -0.0, float64 / float32 denormals, float32-exact, float32 halfway} in any convertible '
     'input unit, and (class extreme) finite float64 over 1e-320..1e300, i.e. beyond both ends of the float32 '
@@ -467,6 +473,8 @@ def judge_dnd(j, f, case, spec, target):
     if b is not None and b.ok:
         blk = 'data/nd_data'
         j.ctx.event('content:histogram')
+        if case.get('_prefill') is not None:
+            j.ctx.event('content:histogram_in_a_stream_that_was_not_empty')
         v = b.value
         nb = tuple(d['axes']['n_bins_all_dims'])
         if tuple(v['lengths']) != nb:
@@ -673,7 +681,7 @@ def judge_pixels(j, f, case, spec, buf, trace, full_filename):
 
 def judge_content(ctx, case, spec, target, buf, trace):
     bo = W.resolved(case['byteorder'])
-    f = D.decode_file(buf, bo)
+    f = D.decode_file(buf, bo, W.base_of(case))
     if f.header_error or f.bat_error:
         ctx.violation('file_undecodable', f'header / allocation table do not decode: '
                       f'{f.header_error or f.bat_error}', W.case_summary(case), mechanism='container')
@@ -811,16 +819,38 @@ def read_back(ctx, S, sc, case, spec, target, f, buf, trace=None):
     cs = W.case_summary(case)
     bo = W.resolved(case['byteorder'])
     if isinstance(target, io.BytesIO):
-        target.seek(0)
+        target.seek(W.base_of(case))
     form = W.REOPEN_FORMS[sum(case['vseed']) % 3]
     kw = {} if form == 'deduced' else {'byteorder': bo if form == 'str' else S.Byteorder[bo]}
     ctx.hit('reader_open:byteorder_' + form)
+    fs = None if isinstance(target, io.BytesIO) else W.forms_of(case).get('reader_fs')
+    fsc = FsChange(fs, target, buf, f) if fs else None
+    to_open = target
+    if fsc:
+        try:
+            to_open = fsc.name_to_open()
+        except OSError:
+            fsc.undo()
+            ctx.oracle_error('C13 reader_fs ' + fs)
+            return
     try:
-        cm = S.Sqw.open(target, **kw)
+        cm = S.Sqw.open(to_open, **kw)
         sqw = cm.__enter__()
     except Exception as e:  # noqa: BLE001
+        if fsc:
+            fsc.undo()
         ctx.violation('reader_open_raised', f'Sqw.open raised {type(e).__name__}: {e}', cs, mechanism='open')
         return
+    if fsc:
+        # from here on the NAME no longer leads to the file that was opened
+        try:
+            fsc.change()
+        except OSError:
+            fsc.undo()
+            ctx.oracle_error('C13 reader_fs ' + fs)
+            return
+        rd.j.extra = {'reader_fs': fs}
+        ctx.hit('reader_fs:' + fs)
     try:
         for b in f.block_list:
             d = b.descriptor
@@ -860,6 +890,8 @@ def read_back(ctx, S, sc, case, spec, target, f, buf, trace=None):
             if not b.ok:
                 ctx.count('reader_read_a_block_the_decoder_rejects')
                 continue
+            if fsc:
+                ctx.event('reader:blocks_after_the_name_changed')
             try:
                 _compare_block(rd, sc, case, spec, d, b, got)
             except D.DecodeError:
@@ -867,11 +899,162 @@ def read_back(ctx, S, sc, case, spec, target, f, buf, trace=None):
             except (AttributeError, TypeError, IndexError, KeyError) as e:
                 rd.j.bad('reader_value', blk, '', f'returned object does not have the model layout: '
                          f'{type(e).__name__}: {e}', mechanism='model_layout')
+        if W.forms_of(case).get('alias'):
+            _alias_check(ctx, rd, sc, sqw, case, spec, target, f, buf)
     finally:
+        if fsc:
+            fsc.undo()
         try:
             cm.__exit__(None, None, None)
         except Exception:  # noqa: BLE001
             pass
+
+
+class FsChange:
+    """One change of the meaning of a file NAME between Sqw.open and read_data_block (W.READER_FS).  The
+    'other file' has the same length, header and allocation table and every later byte inverted."""
+
+    def __init__(self, how, target, buf, f):
+        self.how = how
+        self.path = os.path.abspath(os.fspath(target))
+        self.dir, self.name = os.path.split(self.path)
+        raw = np.frombuffer(bytes(buf), dtype=np.uint8).copy()
+        raw[f.bat_end:] ^= 0xFF
+        self.other = raw.tobytes()
+        self.cwd0 = None
+        self.extra = []
+        self.link = None
+
+    def _write_other(self, p):
+        with open(p, 'wb') as fh:
+            fh.write(self.other)
+        self.extra.append(p)
+        return p
+
+    def name_to_open(self):
+        if self.how.startswith('chdir'):
+            self.cwd0 = os.getcwd()
+            os.chdir(self.dir)
+            return self.name                      # a relative name
+        if self.how == 'symlink_retargeted':
+            self.link = self.path + '.rl'
+            os.symlink(self.path, self.link)
+            self.extra.append(self.link)
+            return self.link
+        if self.how == 'hardlink_removed':
+            self.link = self.path + '.hl2'
+            os.link(self.path, self.link)
+            self.extra.append(self.link)
+            return self.link
+        return self.path
+
+    def change(self):
+        how = self.how
+        if how.startswith('chdir'):
+            d2 = self.path + '.dir'
+            os.makedirs(d2, exist_ok=True)
+            self.extra.append(d2)
+            if how == 'chdir_other_file':
+                self._write_other(os.path.join(d2, self.name))
+            os.chdir(d2)
+        elif how == 'replaced':
+            os.replace(self._write_other(self.path + '.new'), self.path)
+        elif how == 'unlinked':
+            os.remove(self.path)
+        elif how == 'renamed':
+            os.rename(self.path, self.path + '.moved')
+            self.extra.append(self.path + '.moved')
+        elif how == 'symlink_retargeted':
+            other = self._write_other(self.path + '.other')
+            os.remove(self.link)
+            os.symlink(other, self.link)
+        elif how == 'hardlink_removed':
+            os.remove(self.link)
+        else:
+            raise ValueError(how)
+
+    def undo(self):
+        if self.cwd0 is not None:
+            os.chdir(self.cwd0)
+            self.cwd0 = None
+        for p in reversed(self.extra):
+            try:
+                os.rmdir(p) if os.path.isdir(p) and not os.path.islink(p) else os.remove(p)
+            except OSError:
+                pass
+        self.extra = []
+
+
+def _alias_check(ctx, rd, sc, sqw, case, spec, target, f, buf):
+    """What the reader returned is written into IN PLACE (where it is writable): the file keeps its bytes and a
+    second read returns the stored numbers again (a result that shares memory with the stream, or that is
+    handed out a second time, fails this although it was right when it was returned)."""
+    rd.j.extra = {'second_read': 'after_writing_into_the_first_result'}
+    for b in f.block_list:
+        d = b.descriptor
+        if not b.ok:
+            continue
+        blk = '/'.join(d.name)
+        try:
+            first = sqw.read_data_block(d.name)
+            n = _scribble(first)
+            if not n:
+                continue
+            ctx.event('reader:result_written_into', n)
+            now = W.read_target(target)
+            if now != buf:
+                rd.j.bad('reader_result_aliases_file', blk, '', 'writing into the returned object changed the '
+                         'bytes of the file / stream', mechanism='alias')
+                return
+            again = sqw.read_data_block(d.name)
+        except Exception as e:  # noqa: BLE001
+            if d.name == ('experiment_info', 'expdata') and any(x['emode'] == 'indirect' for x in spec['experiments']):
+                continue
+            rd.j.bad('reader_raised', blk, '', f'second read raised {type(e).__name__}: {str(e)[:200]}',
+                     exception=type(e).__name__, mechanism='reader')
+            continue
+        try:
+            _compare_block(rd, sc, case, spec, d, b, again)
+        except D.DecodeError:
+            ctx.count('reader_compare_skipped_unexpected_layout')
+        except (AttributeError, TypeError, IndexError, KeyError) as e:
+            rd.j.bad('reader_value', blk, '', f'returned object does not have the model layout: '
+                     f'{type(e).__name__}: {e}', mechanism='model_layout')
+    ctx.hit('reader:second_read_after_writing_into_the_first')
+    rd.j.extra = {}
+
+
+def _scribble(obj, depth=0):
+    """Overwrite every writable numpy array / scipp Variable reachable from a reader result; number of
+    arrays written."""
+    import dataclasses
+
+    n = 0
+    if depth > 6 or obj is None or isinstance(obj, str | bytes | int | float | bool):
+        return 0
+    if isinstance(obj, np.ndarray):
+        if obj.flags.writeable and obj.size:
+            obj[...] = 77
+            return 1
+        return 0
+    if hasattr(obj, 'values') and hasattr(obj, 'unit') and hasattr(obj, 'dims'):      # scipp Variable
+        try:
+            v = obj.values
+            if isinstance(v, np.ndarray) and v.flags.writeable and v.size:
+                v[...] = 77
+                return 1
+        except Exception:  # noqa: BLE001
+            return 0
+        return 0
+    if isinstance(obj, list | tuple):
+        return sum(_scribble(x, depth + 1) for x in obj[:4])
+    if dataclasses.is_dataclass(obj):
+        for fld in dataclasses.fields(obj):
+            try:
+                n += _scribble(getattr(obj, fld.name), depth + 1)
+            except AttributeError:
+                pass
+    return n
 
 
 def _indirect_en_shapes(b):
@@ -1004,7 +1187,8 @@ def requirements(tier):
                    'content:runs': 500, 'content:pixel_blocks': 200, 'content:pixels': 100000,
                    'content:pixels_beyond_float32': 200,
                    'content:data_range': 100, 'content:data_range_of_masked_pixels': 10,
-                   'content:histogram': 200, 'reader:blocks': 2000,
+                   'content:histogram': 200, 'reader:blocks': 2000, 'reader:blocks_after_the_name_changed': 30,
+                   'reader:result_written_into': 10, 'fresh_interpreter:runs': 2, 'content:histogram_in_a_stream_that_was_not_empty': 10,
                    'reader:variable': 2000, 'reader:unit_dimension': 2000, 'reader:plain': 2000},
         'forced': W.FORCED + ['value:forced', 'value:wide', 'value:extreme', 'row_unit_converted', 'row_float32',
                               'row_int_in_float_row', 'angle_deg', 'angle_rad', 'lattice_nm',
@@ -1014,6 +1198,8 @@ def requirements(tier):
                               'f32_max:rounds_to_largest_finite', 'f32_max:exact', 'f32_underflow:to_zero',
                               'f32_underflow:denormal', 'reader_open:byteorder_deduced',
                               'reader_open:byteorder_str', 'reader_open:byteorder_enum',
+                              *('reader_fs:' + k for k in W.READER_FS),
+                              'reader:second_read_after_writing_into_the_first',
                               *('data_range:masks=' + k for k in W.MASK_CLASSES)],
     }
 
@@ -1047,6 +1233,7 @@ def run(shard, ctx):
         ctx.inconclusive_because('unit table cross-check failed: ' + '; '.join(bad))
         return
     items = W.items_of_shard(shard)
+    cwd_at_start = os.getcwd()
     tmpdir = tempfile.mkdtemp(prefix='rv-c13-')
     state = {'case': None, 'target': None, 'spec': None, 'file': None, 'buf': None, 'judged': False,
              'refused': False}
@@ -1085,6 +1272,7 @@ def run(shard, ctx):
                     models = W.build_models(S, sc, spec, case0.get('calls', case0['program']), case0)
                     W.describe_rows(case0, spec)
                     for case in W.case_reps(case0):
+                        spec = W.mutated(sc, case, spec, models)
                         target = W.open_target(case, tmpdir, rng, session)
                         state.update(case=case, target=target, spec=spec, file=None, buf=None, judged=False,
                                      refused=False)
@@ -1124,7 +1312,13 @@ def run(shard, ctx):
                     state['spec'] = None
                     del spec, models
                 W.close_item(session)
+        if shard['part'] == W.FRESH_SHARD % shard['of']:
+            try:
+                W.fresh_interpreter(ctx, tmpdir, int(shard.get('seed', 0)))
+            except Exception:  # noqa: BLE001
+                ctx.oracle_error('C13 fresh_interpreter')
     finally:
+        os.chdir(cwd_at_start)
         shutil.rmtree(tmpdir, ignore_errors=True)
 
 
